@@ -7,7 +7,7 @@
    The JSON text layers are proved for the modelled subset (see C09.v); whole BQM / QM / expression files. *)
 From Coq Require Import List NArith ZArith Arith Bool.
 From Dimod Require Import Gen.Gen_Codec Model.Codec Model.ChkC09 Proofs.CodecBase Proofs.CodecFrame Proofs.CodecBqm Proofs.CodecBqmTop
-  Proofs.CodecLabel Proofs.CodecJson Proofs.CodecBqmFull Proofs.CodecQm Proofs.CodecExpr.
+  Proofs.CodecLabel Proofs.CodecJson Proofs.CodecBqmFull Proofs.CodecQm Proofs.CodecExpr Proofs.CodecExact.
 Import ListNotations.
 
 Theorem header_prefix_safe :
@@ -113,6 +113,18 @@ Theorem decode_prefix_safe_expr : forall f k, ExprWF f -> k < length (expr_encod
   run expr_decode (firstn k (expr_encode f)) = Err \/ run expr_decode (firstn k (expr_encode f)) = Ok f.
 Proof. exact CodecExpr.expr_prefix_safe. Qed.
 Print Assumptions decode_prefix_safe_expr.
+
+(* exact thresholds at whole-file level: a QM file that still loads lost at most (part of) the padding of its last
+   section - VARS if labelled, else the last NEIG, else (no variables) LINB; an expression member: the padding of QUAD *)
+Theorem decode_ok_only_if_padding_lost_qm : forall f k x, QmWF f -> k < length (qm_encode f) ->
+  run qm_decode (firstn k (qm_encode f)) = Ok x -> x = f /\ length (qm_encode f) - qm_tail_pad f <= k.
+Proof. exact CodecExact.qm_ok_only_if_padding_lost. Qed.
+Print Assumptions decode_ok_only_if_padding_lost_qm.
+
+Theorem decode_ok_only_if_padding_lost_expr : forall f k x, ExprWF f -> k < length (expr_encode f) ->
+  run expr_decode (firstn k (expr_encode f)) = Ok x -> x = f /\ length (expr_encode f) - expr_tail_pad f <= k.
+Proof. exact CodecExact.expr_ok_only_if_padding_lost. Qed.
+Print Assumptions decode_ok_only_if_padding_lost_expr.
 
 (* on the implementation's own bytes: every one of the 324 prefixes of the example file is an error or
    the same content, and the accepted ones start after the closing bracket of the VARS JSON *)
